@@ -239,6 +239,66 @@ let () =
        | None -> oob) | _ -> failwith "dinfo");
   register "use" (fun _ -> "ok")
 
+(* ---- CheckedAccess.v: the same operations with the library's explicit size
+   checks (SBEPP_SIZE_CHECK) instead of bounds-tested reads: value or ASSERT ---- *)
+let last_why = ref "-"
+let ares f = function
+  | CA.AOk (x, _) -> last_why := "-"; f x
+  | CA.AAssert (_, w) ->
+    last_why := (match w with
+      | CA.WCheck (g, o, s) -> Printf.sprintf "check begin=%s off=%s size=%s" (string_of_z g) (string_of_z o) (string_of_z s)
+      | CA.WPre -> "precondition");
+    "ASSERT"
+let knat k = nat_of_int (int_of_string k)
+
+let () =
+  (* which check of the last c-command failed (diagnostics) *)
+  register "cwhy" (fun _ -> !last_why);
+  register "csize" (fun _ -> ares string_of_z (CA.cmsg_size_bytes !cur_be !cur_buf (the_msg ()) !cur_base));
+  register "cesize" (function [p] ->
+      ares string_of_z (CA.centry_size_bytes !cur_be !cur_buf (the_msg ()) !cur_base (parse_path p))
+      | _ -> failwith "cesize");
+  register "cepos" (function [p] ->
+      ares (fun pos -> Printf.sprintf "pos=%s" (string_of_z (Z.sub pos !cur_base)))
+        (CA.centry_pos !cur_be !cur_buf (the_msg ()) !cur_base (parse_path p))
+      | _ -> failwith "cepos");
+  register "cgsize" (function [p; k] ->
+      ares string_of_z (CA.cgroup_size_bytes !cur_be !cur_buf (the_msg ()) !cur_base (parse_path p) (knat k))
+      | _ -> failwith "cgsize");
+  register "cginfo" (function [p; k] ->
+      ares (fun (((g, _), _), _) ->
+          Printf.sprintf "pos=%s bl=%s n=%s" (string_of_z (Z.sub g.gv_pos !cur_base)) (string_of_z g.gv_bl) (string_of_z g.gv_n))
+        (CA.cgroup_info !cur_be !cur_buf (the_msg ()) !cur_base (parse_path p) (knat k))
+      | _ -> failwith "cginfo");
+  register "cgetf" (function [p; k; pr] ->
+      ares (fun bs -> string_of_z (interp (prim_of_string pr) (dec !cur_be bs)))
+        (CA.cget_field !cur_be !cur_buf (the_msg ()) !cur_base (parse_path p) (knat k))
+      | _ -> failwith "cgetf");
+  register "cgeta" (function [p; k] ->
+      ares hex_of_bytes (CA.cget_array !cur_be !cur_buf (the_msg ()) !cur_base (parse_path p) (knat k))
+      | _ -> failwith "cgeta");
+  (* raw() is a view with the same begin / end: the same checks *)
+  register "cgetar" (function [p; k] ->
+      ares hex_of_bytes (CA.cget_array !cur_be !cur_buf (the_msg ()) !cur_base (parse_path p) (knat k))
+      | _ -> failwith "cgetar");
+  register "cgetae" (function [p; k; i] ->
+      ares hex_of_bytes (CA.cget_array_elem !cur_be !cur_buf (the_msg ()) !cur_base (parse_path p) (knat k) (z_of_string i))
+      | _ -> failwith "cgetae");
+  register "cgetcm" (function [p; k; j; pr] ->
+      let (off, t) = member_of p (int_of_string k) (int_of_string j) in
+      ares (fun sub ->
+          if pr = "bytes" then hex_of_bytes sub
+          else string_of_z (interp (prim_of_string pr) (dec !cur_be sub)))
+        (CA.cget_comp_member !cur_be !cur_buf (the_msg ()) !cur_base (parse_path p) (knat k) off (size_of_stype t))
+      | _ -> failwith "cgetcm");
+  register "cdinfo" (function [p; k] ->
+      ares (fun (pos, n) -> Printf.sprintf "pos=%s n=%s" (string_of_z (Z.sub pos !cur_base)) (string_of_z n))
+        (CA.cdata_info !cur_be !cur_buf (the_msg ()) !cur_base (parse_path p) (knat k))
+      | _ -> failwith "cdinfo");
+  register "cgetd" (function [p; k] ->
+      ares hex_of_bytes (CA.cget_data !cur_be !cur_buf (the_msg ()) !cur_base (parse_path p) (knat k))
+      | _ -> failwith "cgetd")
+
 (* ---- Wire.over_message: the reference encoder ---- *)
 let nth_sgroup (gs : sgroups) (k : int) : slevel =
   let rec nth gs k = match gs, k with
